@@ -58,7 +58,9 @@ def expand_faults(behs, cap):
                     vs.append(c)
         csweeps.append(vs)
     out += deal(csweeps, room // 5)
-    wsweeps = []
+    # operations that write many records (a new or imported keystore: some twenty writes) get most of the room: a
+    # failed write strikes at one of 25 positions, and only a sweep reaches a particular one
+    heavy, light = [], []
     for j, b in enumerate(behs):
         idx = [i for i, st in enumerate(b) if st.get("fault") == "failwrite"]
         vs = []
@@ -69,8 +71,12 @@ def expand_faults(behs, cap):
                     c = copy.deepcopy(b)
                     c[i]["k"] = k
                     vs.append(c)
-        wsweeps.append(vs)
-    out += deal(wsweeps, cap - len(out))
+        if vs:
+            (heavy if b[idx[0]].get("t") in ("NewKs", "Import") else light).append(vs)
+    room = cap - len(out)
+    out += deal(heavy, (room * 2) // 3)
+    out += deal(light, cap - len(out))
+    out += deal(heavy, cap - len(out))      # whatever room is left
     return out[:cap]
 
 
